@@ -2,6 +2,7 @@ import TsVerif.Common.IO
 import TsVerif.Common.Tree
 import TsVerif.C14.Lex
 import TsVerif.C14.Sep
+import TsVerif.C14.Nested
 /-!
 Driver for C14.  Input: `set <id> <tokenset>` / `kw <idx,…|->` / `s <codepoints> <real leaves|E|->` / `endset <id>`.
 Output per set: `S-<id> corr=… judge=… strings=… …`.
@@ -83,7 +84,33 @@ structure SetInfo where
   reservedB : Option (List Nat) := none   -- `reserved('alt', word)` in mode B
   kws : List Nat := []
   ambig : List Nat := []
+  pres : List PRe := []     -- round 11b: the tokens with the precedence of every character position
+  nested : Bool := false    -- some token has a `prec` on an inner part (`Z(…)` below the top of its AST)
   deriving Inhabited
+
+/-- round 11b: the AST with the precedence in force at every leaf: `Z(p~a/q~b)` = `choice(prec(p, a), prec(q, b))` anywhere
+in the AST (one member: `prec(p, a)`); everything without a `Z` inside is one leaf of the enclosing precedence -/
+partial def parsePRe (cs : Array Char) (i : Nat) (p : Int) : PRe × Nat :=
+  let c := cs[i]!
+  match c with
+  | 'S' | 'A' =>
+    let (a, j) := parsePRe cs (i + 2) p
+    let (b, k) := parsePRe cs (j + 1) p
+    ((if c == 'S' then .seq a b else .alt a b), k + 1)
+  | 'K' | 'P' | 'O' =>
+    let (a, j) := parsePRe cs (i + 2) p
+    ((match c with | 'K' => .star a | 'P' => .seq a (.star a) | _ => .alt a (.leaf p .eps)), j + 1)
+  | 'Z' =>
+    let rec go (i : Nat) (acc : Option PRe) : PRe × Nat :=
+      let j := takeWhileIdx cs i (fun c => c != '~')
+      let q := (strOf cs i j).toInt?.getD 0
+      let (a, k) := parsePRe cs (j + 1) q
+      let acc := match acc with | none => a | some x => PRe.alt x a
+      if k < cs.size && cs[k]! == '/' then go (k + 1) (some acc) else (acc, k + 1)
+    go (i + 2) none
+  | _ =>
+    let (r, j) := parseRe cs i
+    (.leaf p r, j)
 
 /-- `Z(p~ast/p~ast/…)`: alternatives with their own precedence -/
 def parseAlts (a : String) : List (Int × Regex) :=
@@ -131,14 +158,18 @@ def parseSet (id spec : String) : SetInfo :=
       | p :: s :: ast =>
         let a := ",".intercalate ast
         let cs := a.toList.toArray
-        let alts := parseAlts a
+        let nestedTok := !a.startsWith "Z(" && (a.splitOn "Z(").length > 1
+        let pre := (parsePRe cs 0 (p.toInt?.getD 0)).1
+        -- a nested token gets a dummy non-empty `alts` so that everything reserved to tokens without inner precedences is off
+        let alts := if nestedTok then [(p.toInt?.getD 0, pre.erase)] else parseAlts a
         let ci := natOf s / 4 % 2 == 1
-        let base := if alts.isEmpty then (parseRe cs 0).1 else altRegex alts
+        let base := if nestedTok then pre.erase else if alts.isEmpty then (parseRe cs 0).1 else altRegex alts
         (({ re := (if ci then foldCase base else base), prec := p.toInt?.getD 0,
             isString := natOf s % 2 == 1, immediate := natOf s / 2 % 2 == 1, alts := alts } : Token),
-         (if natOf s % 2 == 1 then parseLit cs else none))
-      | _ => (default, none))
-    { id := id, toks := toks.map (·.1), texts := toks.map (·.2), word := word, extras := extras }
+         (if natOf s % 2 == 1 then parseLit cs else none), pre, nestedTok)
+      | _ => (default, none, .dead, false))
+    { id := id, toks := toks.map (·.1), texts := toks.map (·.2.1), word := word, extras := extras,
+      pres := toks.map (·.2.2.1), nested := toks.any (·.2.2.2) }
   | _ => {}
 
 /-- the extras shapes of harness/src/bin/c14.rs: 0 /\\s/, 1 /[ \\n]/, 2 / /, 3 / / and /\\n/, 4 /[ \\t]/ -/
@@ -221,7 +252,8 @@ def chooser (si : SetInfo) (useRef : Bool) : Nat → List Nat → Option Cand :=
   let validKw : Nat → Bool := fun i => si.kws.contains i
   let inner := si.toks.any (fun t => !t.alts.isEmpty)
   let pick (v : Nat → Bool) : List Nat → Option Cand :=
-    if useRef then refToken si.toks v else if inner then lexScanP si.toks v else lexScan si.toks v
+    if useRef then refToken si.toks v else if si.nested then lexScanN si.toks si.pres v
+    else if inner then lexScanP si.toks v else lexScan si.toks v
   match si.word with
   | some w => withKeywords (pick validMain) (pick validKw) w
   | none => pick validMain
